@@ -130,6 +130,7 @@ type Explorer struct {
 	crossFile   *os.File
 	seed int64
 	noFast bool
+	unsupWitnesses []PathResult
 	panicsCut bool
 	fastOne, fastTwo int64
 }
@@ -816,6 +817,9 @@ func (ex *Explorer) record(w *Worker, r PathResult) {
 	}
 	switch r.Outcome {
 	case "unsupported":
+		if len(ex.unsupWitnesses) < 60 {
+			ex.unsupWitnesses = append(ex.unsupWitnesses, r)
+		}
 		ex.unsupported[r.Label]++
 		if ex.unsupported[r.Label] == 1 {
 			fmt.Fprintf(os.Stderr, "UNSUPPORTED: %s\n%s\n", r.Label, r.Detail)
